@@ -56,6 +56,7 @@ func oplText(chars []string) string {
 type parseObs struct {
 	Panic      string   `json:"panic,omitempty"`
 	Hang       bool     `json:"hang,omitempty"` // Parse had not returned after parseGrace
+	Skipped    bool     `json:"skipped,omitempty"` // not waited for: earlier parses of this process did not return
 	NNamespace int      `json:"nns"`
 	NErrors    int      `json:"nerr"`
 	Bad        []string `json:"bad,omitempty"` // violated clauses about error positions / rendering
@@ -68,7 +69,13 @@ type parseObs struct {
 }
 
 // parseTotal runs the parser and everything that can be done with its errors.
-const parseGrace = 20 * time.Second
+const parseGrace = 30 * time.Second
+
+// after this many parses that did not return, further ones are given one second (the point is made; their goroutines keep
+// processors busy, and each full grace period would cost half a minute)
+const maxParseHangs = 4
+
+var parseHangs int
 
 func (e *storeEnv) parseTotal(src string, transports bool) (o parseObs) {
 	defer func() {
@@ -101,8 +108,13 @@ func (e *storeEnv) parseTotal(src string, transports bool) (o parseObs) {
 			panic(r.pan)
 		}
 		nss, errs = r.nss, r.errs
-	case <-time.After(parseGrace):
-		o.Hang = true
+	case <-time.After(map[bool]time.Duration{false: parseGrace, true: time.Second}[parseHangs >= maxParseHangs]):
+		if parseHangs >= maxParseHangs {
+			o.Skipped = true
+		} else {
+			o.Hang = true
+		}
+		parseHangs++
 		o.Ms = time.Since(t0).Milliseconds()
 		return
 	}
